@@ -116,6 +116,7 @@ func init() {
 		"(time.Duration).Seconds":       inDurSeconds,
 		"(time.Duration).Minutes":       nil,
 		"(*strings.Builder).copyCheck":  inNop,
+		"(*strings.Builder).String":     inBuilderString,
 		"internal/bytealg.IndexByteString": inIndexByteString,
 		"internal/bytealg.CountString":     inCountString,
 		"internal/bytealg.MakeNoZero":      inMakeNoZero,
@@ -1455,4 +1456,11 @@ func inMakeNoZero(e *Exec, s *State, f *Frame, fn *ssa.Function, args []Value, r
 	}
 	id := s.alloc(arr)
 	return e.ret(f, result, SliceV{Obj: id, Len: n, Cap: n, Elem: types.Typ[types.Uint8]})
+}
+
+func inBuilderString(e *Exec, s *State, f *Frame, fn *ssa.Function, args []Value, result ssa.Value) (stepResult, bool) {
+	p := sub(e.ptr(args[0]), fieldPathByName(recvElem(fn), "buf"))
+	sl := s.load(p).(SliceV)
+	bt := types.NewSlice(types.Typ[types.Uint8])
+	return e.ret(f, result, e.convert(s, bt, types.Typ[types.String], sl))
 }
